@@ -1,7 +1,7 @@
 """C01 - in first-match mode the first matching categorising rule decides merchant/category/subcategory.
 
 Exhaustive: every sequence of <= K distinct rules over a 15-block .rules alphabet x 3 preambles, and every
-sequence of <= K rows over an 11-row legacy-CSV alphabet; each file x every transaction of a 72-element
+sequence of <= K rows over a 12-row legacy-CSV alphabet; each file x every transaction of a 72-element
 alphabet, through MerchantEngine.match and through the get_all_rules/get_transforms/normalize_merchant
 path that `tally up` uses (files really written to disk and loaded).
 """
@@ -15,8 +15,8 @@ PROPERTY = "C01"
 LEVEL = "exploration"
 RULE = ("cases = every ordered sequence of 1..K distinct blocks (K=3 quick, 4 thorough) over 15 .rules blocks "
         "(10 categorising: contains/regex/and-not/amount/top-level variable/let/field/source/date; 2 tag-only; 1 unevaluable; 1 never-matching rule whose let: shadows a global; 1 rule reading a name only other rules bind) "
-        "x 3 preambles (none, variable, description transform), plus every ordered sequence of 1..K rows over 11 legacy CSV rows "
-        "(regex, lookahead, alternation, char class, amount/date/month modifiers, tag-only row, invalid regex); each file is run on 72 "
+        "x 3 preambles (none, variable, description transform), plus every ordered sequence of 1..K rows over 12 legacy CSV rows "
+        "(regex, lookahead, alternation, leading parenthesis, char class, amount/date/month modifiers, tag-only row, invalid regex); each file is run on 72 "
         "transactions (8 descriptions x 3 amounts x 3 date/field/source contexts) through 2-3 public entry points. "
         "non-trivial = file in which, for some transaction, >=2 rules are true or a true tag-only rule precedes the winner; files are distinct by construction")
 ASSUMPTIONS = ["truth of one .rules condition is taken from the real evaluator on the one-rule file with the same preamble (C04 judges meaning)",
@@ -64,6 +64,7 @@ CSVROWS = [
     {"pattern": "NETFLIX", "merchant": "NetflixTag", "category": "", "subcategory": "", "tags": "sub|Video"},
     {"pattern": "NETFLIX(", "merchant": "BadRegex", "category": "Bad", "subcategory": "Bad"},
     {"pattern": "[A-C]OSTCO", "merchant": "Costco Any", "category": "Shopping", "subcategory": "Club"},
+    {"pattern": r"(AMAZON|AMZN)\s", "merchant": "Amazon Paren", "category": "Shopping", "subcategory": "Paren"},
 ]
 
 TXNS = R.all_txns()
